@@ -22,6 +22,9 @@ def run(check):
     check.run_rule('C04.R1', lambda c: rule_forwards_is_embed_mask(c, 'C04.R1', 'C04.R2'))
     from ..rules_defaults import rule_neutral_defaults
     check.run_rule('C04.R1d', lambda c: rule_neutral_defaults(c, 'C04.R1', 'forwards'))
+    # declared forwarding is repeatable: the buckets mask() consumes from are private to each call
+    from ..rules_alias import rule_classification_fresh
+    check.run_rule('C04.R8', lambda c: rule_classification_fresh(c, 'C04.R8'))
     check.run_rule('C04.R3', lambda c: rule_declaration_params_used(c, 'C04.R3'))
     check.run_rule('C04.R4', lambda c: rule_forger_protocol(c, 'C04.R4'))
     check.run_rule('C04.R4b', lambda c: rule_chain_order(c, 'C04.R4'))
